@@ -17,6 +17,8 @@ CLAIMED["C16"]=("per queue: append reads/writes its own family at one epoch; pro
   "effect-typed call matching (which family a call touches) + structured ordering/conditionality rules over type-checked AST", "4/C16")
 CLAIMED["C06"]=("only dogfood EndBlock returns updates and only under the epoch-end marker; told = stored; validator-set families written only from the EndBlock/InitGenesis call trees; one cache context per change and forwarding exactly when committed; zero-power/unknown-key filters; previous-set map maintenance; total-order comparators (power desc, address bytes asc); cap and eligibility wiring",
   "structured-dominance facts and comparator classification over type-checked AST; store effect summaries for who-may-write; cache-context typestate", "4/C06")
+CLAIMED["C07"]=("who-may-write the five key families; the three lookup indexes written and deleted together; store-a-key dominated by 'not removing' and 'key not in use' for the stored consensus address; previous key recorded once; reverse lookup deleted only by the pruning loop and the never-active arms; pruning schedule pairing; slash/jail via the reverse lookup; revision-less chain id arguments",
+  "store effect summaries (who-may-write, direct-access sets per function) + structured-dominance facts over type-checked AST", "4/C07")
 NA={}
 def main():
     checks=[]
